@@ -185,6 +185,51 @@ theorem job_call_hash_recorded {db : Db} (fk : FK db) (ev : Ev)
   | start e p t => exact fk_startJob fk e p t
   | finish e p t => exact fk_finishJob fk e p t (fun i l s kids h ht hf => hhit e p i l s kids h (by rw [ht]) hf)
 
+/-- **Edges are durable with their node.** In every durable state of `record_call_node` (every point at
+which the process can die or a failed attempt is rolled back), a CallNode that this call wrote is there
+together with exactly its edges: one per slot of the child list whose hash is a recorded node. -/
+theorem edges_durable_with_node {db : Db} (m : Merkle db) (t a r : Nat) (kids : List H)
+    (hfresh : db.hasNode (hashCallNode t a r kids) = false) :
+    ∀ d ∈ recordCallNodeDurable db t a r kids, d.hasNode (hashCallNode t a r kids) = true →
+      ∀ c n, (hashCallNode t a r kids, c, n) ∈ d.edges ↔ (kids[n]? = some c ∧ d.hasNode c = true) := by
+  intro d hd hn c n
+  simp only [recordCallNodeDurable, mem_cons, mem_nil_iff, or_false, or_self] at hd
+  rcases hd with rfl | rfl
+  · simp [hfresh] at hn
+  · rw [recordCallNode_new hfresh]
+    simp only [mem_append, mem_newEdges, true_and]
+    constructor
+    · rintro (h | h)
+      · exact absurd h (fresh_node_had_no_edges m _ c n hfresh)
+      · exact h
+    · exact fun h => .inr h
+
+/-- … hence a second attempt from any durable state (db_retry after a transient error, or a re-run after a
+process death — `record_call_node` skips a node that exists) ends with the same CallNode and CallEdge rows
+as an uninterrupted call. -/
+theorem retry_from_durable_same_graph (db : Db) (t a r : Nat) (kids : List H) :
+    ∀ d ∈ recordCallNodeDurable db t a r kids,
+      (recordCallNode d t a r kids).1.nodes = (recordCallNode db t a r kids).1.nodes ∧
+      (recordCallNode d t a r kids).1.edges = (recordCallNode db t a r kids).1.edges := by
+  intro d hd
+  simp only [recordCallNodeDurable, mem_cons, mem_nil_iff, or_false, or_self] at hd
+  rcases hd with rfl | rfl
+  · exact ⟨rfl, rfl⟩
+  · rw [recordCallNode_old (recordCallNode_hasNode_self db t a r kids)]
+    exact ⟨rfl, rfl⟩
+
+/-- Contrast (not the code): if the CallNode were committed before its edges are added, the middle durable
+state has the node, and a second attempt from it adds no edge at all — whatever recorded children the id
+contains (for instance a recorded `c` at slot `n`, which `edges_durable_with_node` requires an edge for). -/
+theorem split_commit_loses_edges (db : Db) (t a r : Nat) (kids : List H)
+    (hfresh : db.hasNode (hashCallNode t a r kids) = false) :
+    ∃ d ∈ splitDurable db t a r kids, d.hasNode (hashCallNode t a r kids) = true ∧
+      (recordCallNode d t a r kids).1.edges = db.edges := by
+  refine ⟨{ db with nodes := db.nodes ++ [{ id := hashCallNode t a r kids, task := t, args := a, result := r }] }, ?_, ?_, ?_⟩
+  · simp [splitDurable, hfresh]
+  · simp [Db.hasNode, hasNodeL, H.eqb_iff]
+  · rw [recordCallNode_old (by simp [Db.hasNode, hasNodeL, H.eqb_iff])]
+
 /-- A content-addressed value table stays keyed by the hash of its values (`record_value`). -/
 theorem values_keyed {V : Type} (vh : V → Nat) (st : List (Nat × V)) (v : V)
     (h : ∀ q ∈ st, q.1 = vh q.2) : ∀ q ∈ recordValue vh st v, q.1 = vh q.2 := by
